@@ -26,6 +26,7 @@ pub mod c04;
 pub mod c05;
 pub mod c06;
 pub mod c07;
+pub mod c08;
 pub mod cfg;
 pub mod fault;
 pub mod gen;
@@ -37,7 +38,7 @@ pub mod world;
 use scenario::MarketHistory;
 use simcore::{CheckSpec, Part};
 
-pub const PROPERTIES: &[&str] = &["C02", "C03", "C04", "C05", "C06", "C07"];
+pub const PROPERTIES: &[&str] = &["C02", "C03", "C04", "C05", "C06", "C07", "C08"];
 
 fn common_assumptions() -> Vec<String> {
     vec![
@@ -82,6 +83,10 @@ pub fn registry(property: &str) -> Option<CheckSpec> {
         "C07" => Some(spec("C07", "exploration", 400_000, 8_000_000, vec![
             "Sums are taken over the harness' own position slots (2-8 per run, both sides x both collateral tokens); a removed position's slot is reset like a closed position account.".into(),
             "Failed attempts are rolled back by the harness as the store rolls back a failed transaction; the invariant is evaluated after every step, failed or not.".into(),
+        ])),
+        "C08" => Some(spec("C08", "exploration", 400_000, 8_000_000, vec![
+            "The vault is the harness' own ledger of tokens entering and leaving through the report fields the store transfers on (outputs, secondary outputs, claimable funding, claimable collateral for user and holding, fee claims).".into(),
+            "Funding collected is taken from the reports, or from the on_insufficient_funding_fee_payment callback when it fired.".into(),
         ])),
         _ => None,
     }
